@@ -20,7 +20,7 @@ RULE = ('Generated schedulable specs (both schedulers) with custom task attribut
         '(4) forward: results under two clocks N1 < N2 <= midnight of the project-start day are equal.  Non-trivial = WBS '
         'with >=3 leaves with work, >=1 link and >=1 shared resource; distinct = distinct case.')
 ASSUMPTIONS = ['clocks later than midnight of the project-start day but <= project start are a known corner (F20) generated only in its replay',
-               'external predecessors are not part of "the input WBS and all of its tasks"']
+               'tasks outside the WBS are not part of "the input WBS and all of its tasks": their own state is not snapshotted (what calc() did to them showed in the repeated-call clause, F33)']
 
 CUSTOM_VALUES = [1, 'x', 'long text', (1, 2), None, 2.5, True]
 
